@@ -254,6 +254,10 @@ pub struct Sim {
     /// coverage: calls of `enqueue_responses` and the largest batch handed to it
     pub batches: usize,
     pub batch_max: usize,
+    /// the request answered last (kept so that the application can misbehave and answer it again)
+    pub last_answered: Option<Outstanding>,
+    /// results of surplus responses (not API errors: the application asked for them)
+    pub surplus_results: Vec<String>,
     pub shutdown_seen: u64,
     /// max ticks seen in one requests() call
     pub max_ticks: u64,
@@ -362,6 +366,8 @@ impl Sim {
             untagged_yields: Vec::new(),
             batches: 0,
             batch_max: 0,
+            last_answered: None,
+            surplus_results: Vec::new(),
             shutdown_seen: 0,
             max_ticks: 0,
             fd_scan_limit: 96,
@@ -690,6 +696,7 @@ impl Sim {
             self.gens[gi].supplied.push((o.tag.clone(), blen));
             self.gens[gi].supplied_steps.push(self.step);
         }
+        self.last_answered = Some(o);
         match guarded(|| self.server.respond(resp)) {
             Err(p) => {
                 self.api_errors.push((self.step, format!("respond() panicked: {}", p)));
@@ -701,6 +708,28 @@ impl Sim {
             }
             Ok(Ok(())) => true,
         }
+    }
+
+    /// Application misuse: a second (surplus) response for the request answered last. Whatever
+    /// `respond` says about it is recorded apart from the API errors; a panic is still an API error.
+    pub fn respond_again(&mut self) -> bool {
+        let resp = match &self.last_answered {
+            Some(o) => {
+                let body = format!("{}|surplus", o.tag).into_bytes();
+                o.sreq.process(|req| {
+                    let mut r = Response::new(req.http_version(), StatusCode::OK);
+                    r.set_body(Body::new(body.clone()));
+                    r
+                })
+            }
+            None => return false,
+        };
+        self.step += 1;
+        match guarded(|| self.server.respond(resp)) {
+            Err(p) => self.api_errors.push((self.step, format!("respond() panicked on a surplus response: {}", p))),
+            Ok(r) => self.surplus_results.push(format!("{:?}", r)),
+        }
+        true
     }
 
     /// The application answers every outstanding request with ONE call of `enqueue_responses`;
